@@ -10,6 +10,8 @@ Streams (model `Wpull.Request` vs the real code in the repo under test):
            trace acceptance, end to end: the REAL application (Builder -> pipeline, URL table, web processor,
            FetchRule/ResultRule, TriesFilter, WebClient) against the same strategies x tries 0..4: the visits of
            the URL as seen at the URL table (requests per visit, status and try_count checked in) vs the model
+           and across option combinations of the application wiring (--hostnames, --exclude-hostnames, --domains, -I/-X,
+           --accept/--reject[-regex], --no-parent, --span-hosts, --level, --page-requisites-level, …: attempts == tries whatever is set)
   restart  the real application on a persistent --database against always-failing pages; runs die in a forked child while an
            attempt is in flight and are restarted on the same database: completed failed attempts over all runs <= tries
 Direct oracle on the real runs: redirect follow-ups per visit <= max_redirects; requests per visit
@@ -182,7 +184,8 @@ def check_crawl(ctx, case):
     if case.get('robots') is not None:
         robots = {'replies': case['robots'], 'disallow': bool(case.get('robots_disallow'))}
     res = rc.run_crawl(case['url'], replies, tries, m, login=login, robots=robots,
-                       host_fail=case.get('host_fail'), retry=case.get('retry'), timeout=case.get('timeout', 20))
+                       host_fail=case.get('host_fail'), retry=case.get('retry'), timeout=case.get('timeout', 20),
+                       extra_argv=case.get('options') or ())
     real = ','.join('%d:%d:%s:%d' % (v['requests'], v['robots_requests'], v['status'], v['try_count']) for v in res['visits']) or '-'
     line = rc.session_line(res, m, True, [], login, 'GET', op='crawl', tries=tries)
     model = ctx.model.ask([line])[0]
@@ -190,6 +193,9 @@ def check_crawl(ctx, case):
             'crawl:robots=' + (case.get('robots_name', 'on') if robots else 'off')]
     if case.get('host_fail'):
         tags.append('crawl:host=%s,%s' % (case['host_fail'], case.get('retry') or 'no-retry-option'))
+    for o in case.get('options') or ():
+        if o.startswith('--'):
+            tags.append('crawl:option=' + o)
     ctx.case(('crawl', repr(case)), nontrivial=len(res['hops']) + len(res['rhops']) + res.get('attempts', 0) > 0, tags=tags)
     if res['hung'] or res['capped']:
         reqlog = ' '.join([h[2].split(b'\r\n')[0].decode('latin-1') for h in res['rhops'][-4:] + res['hops'][-6:]])
@@ -239,6 +245,32 @@ def check_crawl(ctx, case):
     ctx.sample({'stream': 'crawl', 'strategy': case.get('name'), 'robots': case.get('robots_name'), 'tries': tries,
                 'max_redirects': m, 'visits': real})
     return res
+
+
+# options read by URLFiltersSetupTask._build_url_filters and the other set-up tasks, with values that do not exclude the test URL
+# http://a.example/x: none of them may switch the tries limit or the redirect limit off
+FILTER_OPTIONS = [['--hostnames', 'a.example'], ['--exclude-hostnames', 'other.test'], ['--domains', 'example'], ['--exclude-domains', 'other.test'],
+                  ['--include-directories', '/'], ['--exclude-directories', '/private'], ['--accept-regex', '.*'], ['--reject-regex', 'zzz-never'],
+                  ['--no-parent'], ['--follow-ftp'], ['--span-hosts'], ['--level', '3'], ['--page-requisites-level', '2'], ['--recursive'],
+                  ['--page-requisites'], ['--accept', '*'], ['--reject', '*.zzz'], ['--span-hosts-allow', 'page-requisites'], ['--no-strong-redirects']]
+OTHER_OPTIONS = [['--relative'], ['--no-host-directories'], ['--inet4-only'], ['--concurrent', '2'], ['--wait', '0'], ['--random-wait'],
+                 ['--no-http-keep-alive'], ['--ignore-length'], ['--no-cookies'], ['--no-cache'], ['--quota', '10m'], ['--referer', 'http://r.example/'],
+                 ['--header', 'X-A: b'], ['--no-iri'], ['--strip-session-id'], ['--escaped-fragment'], ['--no-dns-cache'], ['--rotate-dns'],
+                 ['--hostnames', 'a.example,b.example', '--exclude-hostnames', 'c.test'], ['--retry-connrefused'], ['--retry-dns-error']]
+
+
+def option_sets(rng, thorough):
+    sets = [list(o) for o in FILTER_OPTIONS]
+    if thorough:
+        sets += [list(o) for o in OTHER_OPTIONS]
+    pool = FILTER_OPTIONS + OTHER_OPTIONS
+    for _ in range(40 if thorough else 6):
+        combo = []
+        for o in rng.sample(pool, rng.randrange(2, 5)):
+            if o[0] not in combo:
+                combo += o
+        sets.append(combo)
+    return sets
 
 
 # ------------------------------------------------------------------ kill / restart on a persistent database
@@ -379,6 +411,15 @@ def run(ctx):
         for host_fail, retry in (('refused', '--retry-connrefused'), ('dns', '--retry-dns-error')):
             check_crawl(ctx, {'stream': 'crawl', 'name': 'host-' + host_fail, 'url': 'http://a.example/x', 'replies': [], 'tries': tries,
                               'max_redirects': 1, 'login': None, 'host_fail': host_fail, 'retry': retry})
+    # option combinations of the real application wiring: whatever else is configured, a URL that keeps failing is attempted
+    # --tries times and a redirect loop is cut at --max-redirect
+    orng = ctx.subrng('options')
+    for k, opts in enumerate(option_sets(orng, thorough)):
+        check_crawl(ctx, {'stream': 'crawl', 'name': '500-forever', 'url': 'http://a.example/x', 'replies': strategies(40)['500-forever'],
+                          'tries': 3 if k % 2 else 2, 'max_redirects': 1, 'login': None, 'always_fail': True, 'timeout': 8, 'options': opts})
+        if thorough or k % 4 == 0:
+            check_crawl(ctx, {'stream': 'crawl', 'name': 'self-301', 'url': 'http://a.example/x', 'replies': strategies(40)['self-301'],
+                              'tries': 2, 'max_redirects': 2, 'login': None, 'always_fail': True, 'timeout': 8, 'options': opts})
     # persistent database, the process dies while an attempt is in flight, restart
     for tries, kills in (((2, [1]), (3, [1]), (3, [2]), (3, [1, 1]), (3, [0]), (2, [1, 0, 0]), (4, [3]), (4, [1, 1, 1]), (1, [0]), (3, [2, 0]))
                          if thorough else ((3, [2]), (3, [1, 1]), (2, [1]), (3, [0, 1]))):
